@@ -142,6 +142,12 @@ class SBool:
         self.g = g
         self.e = e
 
+    def __copy__(self):
+        return self
+
+    def __deepcopy__(self, memo):
+        return self          # immutable value; never copy the engine behind it
+
     def __bool__(self):
         return self.g.branch(self.e)
 
@@ -203,6 +209,12 @@ class SNum:
     def __init__(self, g, e):
         self.g = g
         self.e = e
+
+    def __copy__(self):
+        return self
+
+    def __deepcopy__(self, memo):
+        return self          # immutable value; never copy the engine behind it
 
     # ---- helpers
     def _bin(self, o, f, r=False):
